@@ -68,6 +68,18 @@ func runC14(r *fw.Run, p *fw.Program) {
 	c14Flow(cx)
 	c14JQLit(cx)
 	c14XMLNS(cx)
+	// tojson | fromjson is the identity only if the string encoder writes every byte once and escapes as the
+	// engine does (borrowed from C07.json string role and C07.scan)
+	if ref, err := c07LoadRef(p); err != nil {
+		r.Rule("C14.jsonenc", "borrowed C07.json", 1).Undecided("borrowed:C07.json", "", err.Error())
+	} else {
+		sc := r.Scratch()
+		c07Encoder(sc, p, ref)
+		c07ScanRule(sc, p)
+		const d = "tojson/to_jsonl text is what fromjson reads back: colorjson's string, array and object roles have exactly the engine encoder's effects (escape table, \\u00XX form, invalid UTF-8 replacement) and the string loop writes every input byte exactly once (C07.json string/array/object obligations, C07.scan)"
+		r.Import(sc, "C07.json", "C14.jsonenc", d, 20, func(k string) bool { return !strings.Contains(k, "float:") })
+		r.Import(sc, "C07.scan", "C14.jsonenc", d, 20, nil)
+	}
 }
 
 // ---------------------------------------------------------------------------
